@@ -18,6 +18,14 @@ theorem source_structure :
     ∧ Gen.declaredLandscapeShapeFromModel = true ∧ Gen.declaredLoadingShape = true
     ∧ Gen.batchTasksScatteredToMoleculeOrder = true := by decide
 
+/-- Tasks share one alignment model (and its tilt model): outside `__init__` and the template cache
+(modelled below) no method of the alignment or tilt models stores into `self`, mutates a container held
+by `self`, or declares global state. This is what makes the per-molecule tasks pure functions of their
+arguments (`tasks_order_free`). -/
+theorem tasks_share_immutable_model :
+    Gen.modelMethodsDoNotStoreBase = true ∧ Gen.modelMethodsDoNotStoreConcrete = true
+    ∧ Gen.tiltModelsDoNotStore = true := by decide
+
 /-! ## the shared template cache under every thread interleaving -/
 
 /-- a thread is *settled*: it has not started `get` yet, or it has returned the stored value -/
